@@ -5,7 +5,7 @@ seed=$1; tier=$2; shift 2
 patch=/verif/seeded/$seed/patch.diff
 [ -z "$(git -C /repo status --porcelain)" ] || { echo "/repo not clean"; exit 2; }
 git -C /repo apply "$patch" || exit 2
-trap 'git -C /repo checkout -- .' EXIT INT TERM
+trap 'git -C /repo checkout -- . ; /verif/run build >/dev/null 2>&1' EXIT INT TERM
 mkdir -p /tmp/seedruns
 rm -rf /verif/replays/found
 for c in "$@"; do
